@@ -49,9 +49,12 @@ def cases(tier, seed):
         shape = [int(rng.integers(2, 14)), int(rng.integers(2, 14))]
         depth = [8, 16, "float", 8][i % 4]
         nch = [0, 0, 3, 2][(i // 2) % 4] if depth == 8 else 0     # PIL cannot write 16-bit/float colour files
-        out.append({"id": "tiff-%d" % i, "kind": "tiff", "shape": shape, "depth": depth,
-                    "via": ["hp.save", "save_image"][(i // 4) % 2], "scaling": None if depth == "float" else "auto",
-                    "channels": nch, "seed": [seed, "tiff", i]})
+        c = {"id": "tiff-%d" % i, "kind": "tiff", "shape": shape, "depth": depth,
+             "via": ["hp.save", "save_image"][(i // 4) % 2], "scaling": None if depth == "float" else "auto",
+             "channels": nch, "seed": [seed, "tiff", i]}
+        if nch == 2:      # any two of the three colour channels (the third is a filler in the file)
+            c["labels"] = [["red", "green"], ["green", "blue"], ["red", "blue"]][(i // 8) % 3]
+        out.append(c)
     for i in range(n):
         shape = [int(rng.integers(1, 10)), int(rng.integers(2, 10))]
         out.append({"id": "raster-%d" % i, "kind": "raster", "shape": shape, "rgb": bool(i % 2), "fmt": ["png", "tif", "bmp"][i % 3],
@@ -84,14 +87,15 @@ LABELS = ["red", "green", "blue"]
 def _meta_for(case, rng, nch):
     """returns kwargs for update_metadata and a plain description {field: {label: value}}"""
     import xarray as xr
+    zero_noise = rng.random() < 0.25        # a noiseless (simulated) image has noise_sd = 0.0: falsy but valid
     if nch == 0:
-        mi = float(rng.uniform(1.0, 1.6)); wl = float(rng.uniform(0.4, 0.8)); ns = float(rng.uniform(0.01, 0.2))
+        mi = float(rng.uniform(1.0, 1.6)); wl = float(rng.uniform(0.4, 0.8)); ns = 0.0 if zero_noise else float(rng.uniform(0.01, 0.2))
         pol = [float(v) for v in rng.normal(size=2)]
         return dict(medium_index=mi, illum_wavelen=wl, illum_polarization=pol, noise_sd=ns), None
     labs = case.get("labels", LABELS)[:nch]
     wl = {l: float(rng.uniform(0.4, 0.8)) for l in labs}
     pol = {l: [float(v) for v in rng.normal(size=2)] for l in labs}
-    ns = {l: float(rng.uniform(0.01, 0.2)) for l in labs}
+    ns = {l: (0.0 if zero_noise else float(rng.uniform(0.01, 0.2))) for l in labs}
     mi = float(rng.uniform(1.0, 1.6))
     form = case.get("metaform", "dict")
     if form == "scalar":
@@ -218,7 +222,8 @@ def _run_tiff(case, td):
     flags["dims"] = bool(set(b.dims) == set(im.dims) and all(b.sizes[d] == im.sizes[d] for d in im.dims))
     if flags["dims"]:
         bb = b.transpose(*im.dims)
-        if case["channels"]:
+        flags["channel_labels"] = bool(not case["channels"] or sorted(map(str, b.illumination.values)) == sorted(map(str, im.illumination.values)))
+        if case["channels"] and flags["channel_labels"]:
             bb = bb.sel(illumination=im.illumination.values)
         rngv = float(im.values.max() - im.values.min())
         bits = {8: 8, 16: 15}.get(depth)
@@ -231,7 +236,7 @@ def _run_tiff(case, td):
         resid["tiff_quanta"] = fnum(float(np.abs(bb.values - im.values).max()) / q)
         flags["spacing_x"] = bool(np.allclose(bb.x.values, im.x.values, rtol=1e-12, atol=1e-12))
         flags["spacing_y"] = bool(np.allclose(bb.y.values, im.y.values, rtol=1e-12, atol=1e-12))
-        bad = _compare_meta(im, bb, case["channels"])
+        bad = _compare_meta(im, bb, case["channels"], case.get("labels", LABELS)) if flags["channel_labels"] else ["channel labels %r vs %r" % (list(b.illumination.values), list(im.illumination.values))]
         flags["metadata"] = not bad
         flags["name"] = bool(b.name == im.name)
     else:
